@@ -101,6 +101,14 @@ extern "C" __attribute__((noinline)) int u_dyn_step(const uint8_t *st, const uin
         auto lb = d.lower_bound(q[1]);
         out[3] = lb != e; out[4] = lb != e ? lb->first : 0; out[5] = lb != e ? lb->second : 0;
 #endif
+#if DMODE == 6
+        {
+            auto r6 = d.range(q[2], q[3]);
+            size_t base6 = 10 + 2 * MAXOUT;
+            out[base6] = r6.size();
+            for (size_t i = 0; i < r6.size() && i < MAXOUT; ++i) { out[base6 + 1 + 2 * i] = r6[i].first; out[base6 + 2 + 2 * i] = r6[i].second; }
+        }
+#endif
 #if DMODE == 5
         auto f5 = d.find(q[0]);
         out[0] = f5 != e; out[1] = f5 != e ? f5->second : 0;
